@@ -58,7 +58,7 @@ func (c06) Rule() string {
 // a payload type of the harness' own, for arbitrary namespaces
 type c06Payload struct{ ns string }
 
-func (p *c06Payload) Namespace() string        { return p.ns }
+func (p *c06Payload) Namespace() string         { return p.ns }
 func (p *c06Payload) GetSet() *stanza.ResultSet { return nil }
 
 var c06Others = []stanza.Packet{
@@ -639,15 +639,15 @@ func (c06) Gen(r *rand.Rand, tier string) []interface{} {
 	pm := func(k string, a ...string) c06Matcher { return c06Matcher{K: k, A: a} }
 	get := c06Pkt{Kind: "iq", Type: "get", Id: "1", From: "a@b/c", To: "srv.example", Payload: "disco"}
 	out := []interface{}{
-		c06In{Routes: [][]c06Matcher{}, Pkt: get},                                                  // empty table, request
+		c06In{Routes: [][]c06Matcher{}, Pkt: get},                                                    // empty table, request
 		c06In{Routes: [][]c06Matcher{}, Pkt: c06Pkt{Kind: "iq", Type: "result", Id: "1", From: "a"}}, // empty table, response
 		c06In{Routes: [][]c06Matcher{}, Pkt: c06Pkt{Kind: "message", Type: "chat"}},
 		c06In{Routes: [][]c06Matcher{}, Pkt: c06Pkt{Kind: "other", Other: 0}},
 		c06In{Routes: [][]c06Matcher{{}, {pm("packet", "iq")}}, Pkt: get}, // catch-all shadows the exact route
 		c06In{Routes: [][]c06Matcher{{pm("packet", "message")}, {pm("packet", "IQ"), pm("type", "SET")}, {pm("packet", "Iq"), pm("type", "Get"), pm("ns", strings.ToUpper(stanza.NSDiscoInfo))}, {}}, Pkt: get},
-		c06In{Routes: [][]c06Matcher{{pm("type", "normal")}}, Pkt: c06Pkt{Kind: "message"}},           // default message type
-		c06In{Routes: [][]c06Matcher{{pm("type", "")}}, Pkt: c06Pkt{Kind: "message"}},                 // "" is not the type of an untyped message
-		c06In{Routes: [][]c06Matcher{{pm("type", "")}}, Pkt: c06Pkt{Kind: "presence"}},                // but it is of an untyped presence
+		c06In{Routes: [][]c06Matcher{{pm("type", "normal")}}, Pkt: c06Pkt{Kind: "message"}}, // default message type
+		c06In{Routes: [][]c06Matcher{{pm("type", "")}}, Pkt: c06Pkt{Kind: "message"}},       // "" is not the type of an untyped message
+		c06In{Routes: [][]c06Matcher{{pm("type", "")}}, Pkt: c06Pkt{Kind: "presence"}},      // but it is of an untyped presence
 		c06In{Routes: [][]c06Matcher{{pm("ns", "")}}, Pkt: c06Pkt{Kind: "iq", Type: "set", Id: "2", Payload: "disco0"}},
 		c06In{Routes: [][]c06Matcher{{pm("ns", "")}}, Pkt: c06Pkt{Kind: "iq", Type: "set", Id: "2", From: "x", To: "y"}},
 		c06In{Routes: [][]c06Matcher{{pm("ns", "urn:Custom")}}, Pkt: c06Pkt{Kind: "iq", Type: "get", Id: "3", Payload: "custom:urn:Custom"}}, // upper-case namespace never matches
